@@ -34,13 +34,14 @@ def unique_matching(cfg, pred, ref):
     if cfg.get("input") == "matched" or not pred.any() or not ref.any():
         return True
     mm, thr = cfg.get("mmetric", "IOU"), cfg.get("mthr", 0.5)
-    if cfg.get("matcher") == "merge":
-        return False if len({int(x) for x in np.unique(pred) if x}) > 1 else True
+    if cfg.get("matcher") == "merge" and len({int(x) for x in np.unique(pred) if x}) > 1:
+        return False
     decr = mm == "ASSD"
     try:
         cands = impl_candidates(pred, ref, mm)
     except Exception:
         return False
+    # (a single prediction under the merge matcher is still subject to ties between its candidate references)
     ok = [c for c in cands if (c[0] <= thr if decr else c[0] >= thr)]
     return not any(a[0] == b[0] and (a[1] == b[1] or a[2] == b[2]) for a, b in itertools.combinations(ok, 2))
 
